@@ -626,8 +626,8 @@ func (l *Lexer) nextIsLetterCommodity() bool {
 	for pos < len(l.input) && l.isLetter(l.input[pos]) {
 		pos++
 	}
-	// a commodity code may be separated from its number by blanks ("-USD 9.20")
-	for pos < len(l.input) && l.input[pos] == ' ' {
+	// a commodity code may be separated from its number by blanks or tabs ("-USD 9.20")
+	for pos < len(l.input) && (l.input[pos] == ' ' || l.input[pos] == '\t') {
 		pos++
 	}
 	if pos >= len(l.input) {
